@@ -563,7 +563,14 @@ class C09(Prop):
                 return f"disk scenario: impl={ig} model={m['gets']}"
             return None
         if case["kind"] == "defhash":
-            # (model side wired in once the driver knows the op)
+            m = driver.ask({"op": "defhash", "pairs": [[o["a"], o["b"]] for o in i["pairs"]]})
+            if "same" not in m:
+                return f"driver did not answer the defhash request: {str(m)[:200]}"
+            got = [o["same"] for o in i["pairs"]]
+            if got != m["same"]:
+                k = next(j for j, (x, y) in enumerate(zip(got, m["same"])) if x != y)
+                return (f"definition hash equality of pair {k} ({case['pairs'][k][0]} vs {case['pairs'][k][1]}): hash_definition says {got[k]}, "
+                        f"the model's hash input says {m['same'][k]} (old variants: v1={m['v1'][k]} v2={m['v2'][k]} v3={m['v3'][k]})")
             return None
         if case["kind"] == "runs2" or case["backend"] == "disk" or not i["ops"]:
             return None
